@@ -43,7 +43,13 @@ def single_item_script(g):
         if k < 0.35: ops.append(dict(op="put", item=g.item_of(t), **base))
         elif k < 0.55:
             e, nm, vs = g.update_expr()
-            ops.append(dict(op="update", key=g.key_of(t["schema"]), expr=e, names=nm, values=vs, **base))
+            key = g.key_of(t["schema"])
+            if nm and r.random() < 0.3:
+                # an attribute literally named like the placeholder the update uses: an ordinary attribute, left alone
+                ops.append(dict(op="put", item={**key, sorted(nm)[0]: S("keep")}, **base))
+            if r.random() < 0.08:
+                key = dict(key); key["zz"] = S("extra")     # not a key attribute: not part of an item the update creates
+            ops.append(dict(op="update", key=key, expr=e, names=nm, values=vs, **base))
         elif k < 0.7: ops.append(dict(op="delete", key=g.key_of(t["schema"]), return_old=r.random() < 0.7, **base))
         else: ops.append(dict(op="get", key=g.key_of(t["schema"], exact=r.random() < 0.95), **base))
         if r.random() < 0.35:
@@ -292,6 +298,20 @@ def page_script(g):
             else:
                 nxt = json.loads(json.dumps(op)); nxt["esk"] = {"$lek": len(ops) - 1}
             ops.append(nxt)
+        if r.random() < 0.35:
+            # a start key written by hand: positioned at a stored item, at an absent one, or malformed (a key attribute of
+            # the table or of the index missing or of the wrong type): the malformed ones are rejected, not dropped
+            hand = json.loads(json.dumps(op))
+            esk = g.key_of(t["schema"], exact=r.random() < 0.5)
+            q = r.random()
+            if q < 0.25 and t["schema"]["range"]: esk.pop(t["schema"]["range"][0], None)
+            elif q < 0.4: esk[t["schema"]["hash"][0]] = {"BOOL": True}
+            ix = [i for i in t["indexes"] if i["name"] == op.get("index")]
+            if ix:
+                esk[ix[0]["hash"]] = S(r.choice(gen.IDXVALS)) if r.random() < 0.75 else N("1")
+                if ix[0]["range"] and r.random() < 0.8: esk[ix[0]["range"]] = S(r.choice(gen.IDXVALS)) if r.random() < 0.8 else {"BOOL": True}
+            hand["esk"] = esk
+            ops.append(hand)
     return ops
 
 
@@ -403,6 +423,9 @@ def keys_script(g):
     op = dict(op="create_table", client="c", table="tbl", hash=dict(name=schema["hash"][0], type=schema["hash"][1]),
               billing="PAY_PER_REQUEST", throughput=True)
     if schema["range"]: op["range"] = dict(name=schema["range"][0], type=schema["range"][1])
+    if r.random() < 0.06:
+        # a key attribute declared with a type that is no key type: the table is refused (and nothing below finds it)
+        op[r.choice(["hash", "range"] if schema["range"] else ["hash"])]["type"] = r.choice(["BOOL", "SS", "NS", "BS", "L", "M", "NULL", "s", ""])
     ops = [op]
     t = dict(name="tbl", schema=schema, indexes=[])
     pool = ["a", "a.b", "b", "b.c", "a.", ".b", "c", "a.b.c", "ab", "1", "1.0", "[1 2]"]
@@ -433,7 +456,10 @@ def keys_script(g):
         elif q < 0.55: ops.append(dict(op="get", key=key(exact=r.random() < 0.8), **base))
         elif q < 0.7: ops.append(dict(op="delete", key=key(exact=r.random() < 0.8), return_old=True, **base))
         elif q < 0.85:
-            ops.append(dict(op="update", key=key(exact=r.random() < 0.85), expr="SET v = :v", names={}, values={":v": S("u%d" % len(ops))}, **base))
+            k = key(exact=r.random() < 0.85)
+            if r.random() < 0.2: k["zz"] = S("extra")      # not a key attribute: it is not part of an item the update creates
+            ops.append(dict(op="update", key=k, expr="SET v = :v", names={}, values={":v": S("u%d" % len(ops))}, **base))
+            ops.append(dict(op="get", key=key(), **base))
         elif q < 0.93: ops.append(dict(op="scan", **base))
         else: ops.append(dict(op="scan", esk=key(exact=r.random() < 0.5), **base))     # a start key written by hand
     return ops
@@ -510,6 +536,13 @@ def faults_script(g):
             if r.random() < 0.5: ops += g.data_op("c", [t], len(ops))[:1]
         for _ in range(r.randrange(1, 5)):
             ops += g.data_op("c", [t], len(ops))[:1]
+        if r.random() < 0.35:
+            # a request that the SDK v1 client-side validation refuses (table name shorter than 3): under a failure the
+            # failure is what the caller sees, in both SDKs
+            k = g.key_of(t["schema"])
+            ops.append(r.choice([dict(op="get", client="c", table="t", key=k), dict(op="put", client="c", table="t", item=k),
+                                 dict(op="delete", client="c", table="t", key=k),
+                                 dict(op="update", client="c", table="t", key=k, expr="SET v = :v", names={}, values={":v": S("x")})]))
         if two and r.random() < 0.7:
             # a batch over two tables while the failure is active: every request must come back under its own table
             reqs = {}
@@ -585,7 +618,10 @@ def nt_batch(ops, obs):
 NATIVE_EXPRS = ["x = :y", "y = :x", "x  =  :y", " x = :y ", "x\t=\n:y", ":y = x", "g = :v", "g=:v", "SET g = :v", "SET  g = :v",
                 "attribute_exists(h)", "attribute_exists( h )", "h = :h", "h = :h AND g = :v",
                 # texts that differ only in letter case are different registrations
-                "X = :y", "G = :v", "SET G = :v", "set g = :v", "H = :h"]
+                "X = :y", "G = :v", "SET G = :v", "set g = :v", "H = :h",
+                # only space, tab, newline and carriage return separate words (the language's white space): a vertical tab,
+                # a form feed, NEL, a no-break space or an em space (UTF-8 bytes, one JSON character per byte) are part of the text
+                "x\x0b=\x0c:y", "x\u00c2\u00a0=\u00c2\u00a0:y", "g\u00e2\u0080\u0083= :v", "x\u00c2\u0085= :y", "x\r=\r:y"]
 
 
 def native_script(g):
